@@ -714,6 +714,15 @@ func (f *Frame) flow(from, to *ssa.BasicBlock, st *State, in map[*ssa.BasicBlock
 		}
 		return
 	}
+	// "loop N exit" anchors: the edge on which the loop header leaves the loop (condition false / range exhausted;
+	// a break leaves from inside the body and does not pass here)
+	if f.top || f.prefix != "" {
+		for _, li := range f.loops {
+			if li.head == from && !li.body[to] {
+				f.atPoint(fmt.Sprintf("loop %d exit", li.ord), st, from, len(from.Instrs)-1)
+			}
+		}
+	}
 	in[to] = append(in[to], edgeIn{from, st})
 }
 
